@@ -166,6 +166,12 @@ class SrtContext:
 
     LOGGER.debug("Check and process the last SRT paragraph.")
 
+    # paragraphs shorter than the millisecond resolution of the time codes cannot be represented
+    self._paragraphs = [
+      p for p in self._paragraphs
+      if p.get_end() is None or p.get_end().to_seconds() > p.get_begin().to_seconds()
+    ]
+
     if self._paragraphs and self._paragraphs[-1].get_end() is None:
       if self._paragraphs[-1].is_only_whitespace():
         # if the last paragraph contains only whitespace, remove it
